@@ -18,8 +18,14 @@ int main (int argc, char **argv)
 	  std::cout << "Q" << i << " " << res.size () << ":";
 	  for (auto &stk: res)
 	    {
-	      std::cout << " ";
-	      if (stk->size () > 0) { auto v = stk->pop (); v->show (std::cout); }
+	      // the whole stack, bottom to top, as <a|b|c>; its top value alone is also what the older callers used
+	      std::cout << " <";
+	      for (size_t d = stk->size (); d > 0; --d)
+		{
+		  stk->get (d - 1).show (std::cout);
+		  if (d > 1) std::cout << "|";
+		}
+	      std::cout << ">";
 	    }
 	  std::cout << "\n";
 	}
